@@ -59,7 +59,7 @@ def playCmd (script : String) : IO Unit := do
   let readFile := fun (p : String) => (files.find? (fun f => f.1 == p)).map (·.2)
   let mut player : Player := {}
   for op in ops do
-    let (res, p') := player.exec op readFile
+    let (res, p') := player.run op readFile
     player := p'
     out.putStrLn res.render
 
